@@ -28,6 +28,7 @@ def _setup():
     encoding.range = ForkingRange
     enum_mod.math = MathStub()
     enum_mod.max = sym_max
+    enum_mod.int = sym_int_ext
 
 
 # ---------------------------------------------------------------- tree descriptions
@@ -235,6 +236,12 @@ def skeletons(tier):
                                      (S.A("i2"), "can", st[1][0], None)]
         return dict(structs=st, enums=[], impls=impls, services=[], devices=[])
 
+    def k_bodyless(S):  # bindings without any extension field or signal block (what a tree built by hand may hold)
+        st = [(S.A("s1"), [(S.A("f1"), ("u", S.I("w1", 1, 64))), (S.A("f2"), ("u", S.I("w2", 1, 64)))])]
+        impls = default_impls(st) + [(S.A("i1"), S.A("p1"), S.A("t1"), None), (S.A("i2"), S.A("p2"), S.A("t2"), None),
+                                     (S.A("i3"), "can", S.A("t3"), None)]
+        return dict(structs=st, enums=[], impls=impls, services=[], devices=[])
+
     def k_size(S):  # C rule: message wider than 64 bits, widths symbolic
         w = lambda n: ("u", S.I(n, 1, 64))
         st = [(S.A("s1"), [(S.A("f1"), w("w1")), (S.A("f2"), w("w2")), (S.A("f3"), ("i", S.I("w3", 1, 64)))]),
@@ -251,7 +258,7 @@ def skeletons(tier):
         impls = default_impls(st) + [(S.A("i1"), "can", st[1][0], 1)]
         return dict(structs=st, enums=en, impls=impls, services=[], devices=[])
 
-    sk = {"size_compound": k_size_compound, "types": k_types, "fields": k_fields, "empty_struct": k_empty_struct, "enum": k_enum, "impls": k_impls,
+    sk = {"bodyless": k_bodyless, "size_compound": k_size_compound, "types": k_types, "fields": k_fields, "empty_struct": k_empty_struct, "enum": k_enum, "impls": k_impls,
           "devices": k_devices, "devices_nosvc": k_devices_nosvc, "bind": k_bind, "bind_noid": k_bind_noid,
           "size": k_size}
     return sk
@@ -272,6 +279,7 @@ def permute(d, variant):
                 devices=p([(n, None if s is None else p(s)) for n, s in d["devices"]]))
 
 
+PRIME_TEXT = ('version: "3"\nstruct P { a @0: u8, }\nimpl can for P {\n    id: 1,\n}\n')
 ALWAYS_ILL_FORMED = ("empty_struct", "devices_nosvc")
 PLUGINS = {"general": None, "dbc": "fcp_dbc", "can_c": "fcp_can_c"}
 SPECS = {"general": spec_general, "dbc": spec_dbc, "can_c": spec_can_c}
@@ -285,6 +293,9 @@ def c09_case(args):
 
     res = new_result()
     known = Known("C09")
+    # history: in this process verifiers have already been created and extended with both plug-ins' checks
+    from ..prime import prime
+    prime(PRIME_TEXT, ("verify",))
     S = Sites()
     d = permute(skeletons(tier)[skname](S), variant)
     spec = SPECS[plugin](d)
@@ -302,7 +313,7 @@ def c09_case(args):
     def mk(m):
         names = {k: a.realize(m) for k, a in S.atoms.items()}
         ints = {k: m.eval(x.e, model_completion=True).as_signed_long() for k, x in S.ints.items()}
-        return {"kind": "verifier", "skeleton": skname, "plugin": plugin, "perm": variant, "names": names,
+        return {"kind": "verifier", "skeleton": skname, "plugin": plugin, "perm": variant, "names": names, "decoy_text": PRIME_TEXT,
                 "ints": ints, "spec": bool(z3.is_true(m.eval(spec, model_completion=True)))}
 
     env = {"v": {k: x.e for k, x in S.ints.items()}, "a": {k: x.e for k, x in S.atoms.items()}}
@@ -346,7 +357,7 @@ def run_c09(tier: str) -> int:
             if name in ("bind", "bind_noid") and plugin == "general":
                 continue  # bindings to unknown structs are not constrained by the general rules: still run
             for variant in ((0, 1) if tier == "quick" else (0, 1, 2)):
-                if plugin != "general" and name not in ("bind", "bind_noid", "size", "size_compound", "impls", "types") and variant:
+                if plugin != "general" and name not in ("bind", "bind_noid", "bodyless", "size", "size_compound", "impls", "types") and variant:
                     continue
                 cases.append((name, plugin, variant, tier))
     for name in ("bind", "bind_noid"):
